@@ -7,6 +7,10 @@ RULE = ('signatures with 0-3 parameters (annotated from a pool of 27 annotations
         'extras, some parameters unannotated) and return annotation (pool / None / absent) x the consistent Google-style '
         'docstring rendered from the signature in a random equal spelling (Optional/Union/| permutations, Literal order, section '
         'title synonyms, documentation order) x every single edit (drop / add / rename / duplicate / reorder a parameter, change '
+        'the documented type to something that merely NAMES the annotation — the bare origin of a parametrised type at the top and at every inner '
+        'subscript in the typing and the builtin spelling, the outer type with one argument dropped, every string the annotation object or its '
+        'origin reports as __name__ / __qualname__ / _name — for every pool annotation x spelling x {parameter, Returns, next to a correct '
+        'neighbour} x trigger path (enumerated), change '
         'the documented type at every node of its syntax tree, drop the type, typing. prefix, undefined name, class outside the '
         'context, unparsable text, wrong arity, drop / add / alter / untype Returns, missing / empty / summary-only docstring) x '
         'trigger paths (@pedantic, @pedantic_require_docstring, @pedantic(require_docstring=True), pedantic_class_require_docstring '
@@ -66,7 +70,7 @@ def to_val(o):
     if o is typing.Any: return ['special', 'Any']
     org = typing.get_origin(o)
     if org is typing.Union: return ['union', True, [to_val(a) for a in o.__args__]]
-    if org is collections.abc.Callable: return ['talias', 'Callable', [to_val(a) for a in o.__args__]]
+    if org is collections.abc.Callable and hasattr(o, '__args__'): return ['talias', 'Callable', [to_val(a) for a in o.__args__]]
     if org in HEADS and hasattr(o, '__args__'): return ['talias', HEADS[org], [to_val(a) for a in o.__args__]]
     if isinstance(o, type): return ['cls', o.__name__]
     name = getattr(o, '_name', None)
@@ -194,6 +198,68 @@ def node_edits(text, rng, per_node):
     return out
 
 
+OTHER_SPELLING = {'List': 'list', 'list': 'List', 'Dict': 'dict', 'dict': 'Dict', 'Tuple': 'tuple', 'tuple': 'Tuple', 'Set': 'set', 'set': 'Set'}
+
+
+def in_fragment(text):
+    try:
+        return to_expr(text) is not None
+    except OutsideFragment:
+        return False
+
+
+def near_misses(ann, ty):
+    """documented types that merely *name* the annotation `ann` (source text) whose consistent spelling is `ty`:
+       the bare origin of a parametrised type (at the top and at every inner subscript, in the typing and in the builtin
+       spelling), the outer type with one argument dropped, and every string the annotation object (or its origin) reports as
+       its own name (`__name__`, `__qualname__`, `_name`).  Deterministic; every result differs from `ty` as text."""
+    out = []
+
+    def add(label, text):
+        if text != ty and in_fragment(text) and all(t != text for _, t in out):      # the first label of a text wins
+            out.append((label, text))
+    tree = ast.parse(ty, mode='eval')
+    nodes = list(ast.walk(tree.body))
+    for idx, n in enumerate(nodes):
+        if not isinstance(n, ast.Subscript):
+            continue
+        top = n is tree.body
+        head = ast.unparse(n.value)
+        elts = list(n.slice.elts) if isinstance(n.slice, ast.Tuple) else [n.slice]
+        repl = [('bare-origin' if top else 'bare-origin-inner', head)]
+        if head in OTHER_SPELLING:
+            repl.append(('bare-origin-other-spelling' if top else 'bare-origin-inner', OTHER_SPELLING[head]))
+        if len(elts) >= 2:
+            for k in range(len(elts)):
+                rest = elts[:k] + elts[k + 1:]
+                repl.append(('drop-arg', f"{head}[{', '.join(ast.unparse(e) for e in rest)}]"))
+        for label, c in repl:
+            fresh = ast.parse(ty, mode='eval')
+            target = list(ast.walk(fresh.body))[idx]
+
+            class S(ast.NodeTransformer):
+                def visit(self, node):
+                    if node is target:
+                        return ast.parse(c, mode='eval').body
+                    return self.generic_visit(node)
+            add(label, ast.unparse(ast.fix_missing_locations(S().visit(fresh))))
+    # what the annotation object calls itself
+    try:
+        o = eval(ann, dict(NSMOD))
+    except Exception:
+        o = None
+    o = NSMOD.get(o, o) if isinstance(o, str) else o
+    objs = [('', o)] + ([('origin', typing.get_origin(o))] if typing.get_origin(o) is not None else [])
+    for who, obj in objs:
+        for attr in ('__name__', '__qualname__', '_name'):
+            v = getattr(obj, attr, None)
+            if isinstance(v, str) and v:
+                add(f'name-like:{who}{attr}', v)
+                if v in OTHER_SPELLING:
+                    add(f'name-like:{who}{attr}-other-spelling', OTHER_SPELLING[v])
+    return out
+
+
 def render_doc(idoc, title_args='Args', title_ret='Returns'):
     """the docstring text (without quotes) for an intended docstring"""
     if isinstance(idoc, str):
@@ -315,7 +381,7 @@ def consistent_doc(sig, rng, canonical=False):
     return {'params': ps, 'returns': r}
 
 
-def edits_of(sig, cdoc, rng, per_node):
+def edits_of(sig, cdoc, rng, per_node, near=True):
     """(label, intended docstring) for every single edit of the consistent docstring `cdoc`"""
     out = []
     ps, r = cdoc['params'], cdoc['returns']
@@ -336,6 +402,8 @@ def edits_of(sig, cdoc, rng, per_node):
         out.append(('ill-typed-type', with_params(pre + [(nm, rng.choice(ILL_TYPED))] + post)))
         for lab, new in node_edits(ty, rng, per_node):
             out.append(('change-type@' + lab.split(':')[1], with_params(pre + [(nm, new)] + post)))
+        for lab, new in (near_misses(dict(sig['params'])[nm], ty) if near else []):
+            out.append((lab, with_params(pre + [(nm, new)] + post)))
     out.append(('add-param', with_params(ps + [('zz', 'int')])))
     out.append(('add-param-front', with_params([('zz', rng.choice(['int', 'My', 'Foo']))] + ps)))
     unann = [nm for nm, ann in sig['params'] if ann is None]
@@ -355,6 +423,8 @@ def edits_of(sig, cdoc, rng, per_node):
         out.append(('ill-typed-returns', with_ret(('typed', rng.choice(ILL_TYPED)))))
         for lab, new in node_edits(r[1], rng, per_node):
             out.append(('change-returns@' + lab.split(':')[1], with_ret(('typed', new))))
+        for lab, new in (near_misses(sig['ret'], r[1]) if near else []):
+            out.append((lab + '-returns', with_ret(('typed', new))))
     else:
         out.append(('add-returns', with_ret(('typed', rng.choice(['int', 'None', 'My'])))))
         out.append(('add-untyped-returns', with_ret(('untyped',))))
@@ -408,7 +478,9 @@ def cases(rng, tier):
         deco = rng.choice(['pedantic', 'pedantic', 'require', 'require_kw', 'class'])
         cdoc = consistent_doc(sig, rng)
         titles = (rng.choice(['Args', 'Args', 'Arguments', 'Parameters']), 'Returns')
-        variants = [('consistent', cdoc)] + edits_of(sig, cdoc, rng, per_node)
+        # the near misses that merely name the annotation are enumerated below for every pool annotation; inside the seeded
+        # signatures (several parameters, mixed contexts) the quick tier adds them to every third one
+        variants = [('consistent', cdoc)] + edits_of(sig, cdoc, rng, per_node, near=(tier != 'quick' or k % 3 == 0))
         if deco != 'pedantic':
             variants += [('missing-docstring', None), ('empty-docstring', ''), ('summary-only', ' Summary. ')]
         for label, idoc in variants:
@@ -423,6 +495,19 @@ def cases(rng, tier):
                 out.append(mk_case(deco, [(sig, idoc)], label, titles=titles))
         if k % 10 == 0:
             out.append(mk_case(deco, [(sig, cdoc)], 'consistent', enabled=False))
+    # (after the seeded part: a failure that depends on an earlier case is bisected over everything that ran before it)
+    # every pool annotation in every equal spelling x every near miss that merely names it, as a parameter, as the Returns
+    # entry, next to a correctly documented neighbour, and under every trigger path
+    for ann, alts in POOL:
+        for alt in alts:
+            for lab, text in near_misses(ann, alt):
+                for deco in ('pedantic', 'require', 'require_kw', 'class'):
+                    out.append(mk_case(deco, [({'params': [('p0', ann)], 'ret': 'None'}, {'params': [('p0', text)], 'returns': None})], lab))
+                    out.append(mk_case(deco, [({'params': [('p0', 'int')], 'ret': ann}, {'params': [('p0', 'int')], 'returns': ('typed', text)})], lab + '-returns'))
+                out.append(mk_case('pedantic', [({'params': [('p0', 'str'), ('p1', ann)], 'ret': ann},
+                                                 {'params': [('p0', 'str'), ('p1', text)], 'returns': ('typed', alt)})], lab))
+                out.append(mk_case('pedantic', [({'params': [('p0', ann), ('p1', 'My')], 'ret': ann},
+                                                 {'params': [('p0', alt), ('p1', 'My')], 'returns': ('typed', text)})], lab + '-returns'))
     return out
 
 
@@ -484,7 +569,8 @@ F_PARSER = 'C19-returns-type-with-blank-not-recognised'
 INCONSISTENT = {'drop-param', 'rename-param', 'dup-param-adjacent', 'dup-param-replacing-next', 'drop-type', 'typing-prefix',
                 'unparsable-type', 'ill-typed-type', 'add-param', 'add-param-front', 'document-unannotated', 'drop-returns',
                 'untyped-returns', 'typing-prefix-returns', 'unparsable-returns', 'ill-typed-returns', 'add-returns',
-                'add-untyped-returns', 'missing-docstring', 'empty-docstring'}
+                'add-untyped-returns', 'missing-docstring', 'empty-docstring',
+                'bare-origin', 'bare-origin-other-spelling', 'bare-origin-returns', 'bare-origin-other-spelling-returns'}
 
 
 def judge(case, impl, model):
